@@ -533,7 +533,8 @@ Section Logical.
       | Vec l => Forall (dfd S) l
       | Mat A => Forall (Forall (dfd S)) A
       end.
-    Definition ldf1 (e : lx) : Prop := forall t, logical d m e = Some t -> tdfd t.
+    Definition ldf1 (e : lx) : Prop :=
+      (forall t, logical d m e = Some t -> tdfd t) /\ (forall pa, phys_sc d e = Some pa -> dfd S pa).
     Definition ldf := allsub ldf1.
 
     (* ---------------------------------------------------------------- functions: the pull-back formulas *)
@@ -695,6 +696,89 @@ Section Logical.
         veq; field; exact dz.
     Qed.
 
+    Lemma ev_tpow tb tx : evs (tpow tb tx) = P S (evs tb) (evs tx).
+    Proof.
+      destruct tx; try reflexivity. destruct z as [|p|p]; simpl.
+      - symmetry. apply (P_zero S).
+      - symmetry. apply (P_pos S).
+      - symmetry. apply (P_neg S).
+    Qed.
+
+    (* ---------------------------------------------------------------- function-free sub-expressions *)
+    Lemma csubst_ev t : evs (csubst d m t) = evs t.
+    Proof.
+      induction t; simpl; try reflexivity;
+        try (unfold ev in *; simpl; now rewrite ?IHt, ?IHt1, ?IHt2).
+      destruct a as [lg i|n|lg f c sd al|m' i al|sd i]; try reflexivity.
+      destruct lg; try reflexivity. destruct (Nat.ltb i d) eqn:Ei; try reflexivity.
+      apply Nat.ltb_lt in Ei. change (Mi i = crd S false i). symmetry. now apply Hcrd.
+    Qed.
+
+    Lemma phys_sc_sound e : forall pa, phys_sc d e = Some pa -> pden e = Some (FSc (evs pa)).
+    Proof.
+      induction e as [p q|n|i|f k|f k|f k i|l IHl|l IHl|b x IHb IHx|f a IHa|a IHa|a IHa|a IHa|a IHa
+                     |a b IHa IHb|a b IHa IHb|a b IHa IHb|n l IHl|i a IHa|rows IHr] using lx_ind';
+        intros pa H; simpl in H; try discriminate.
+      - inversion H. reflexivity.
+      - inversion H. reflexivity.
+      - simpl. destruct (Nat.ltb i d); [|discriminate]. inversion H. reflexivity.
+      - (* Add *) cbn [pden]. revert pa H. induction IHl as [|x r Hx Hr IH]; intros pa H; [discriminate|].
+        destruct r as [|y r'].
+        + now apply Hx.
+        + destruct (phys_sc d x) as [a|] eqn:Ea; [|discriminate].
+          match type of H with match ?g with _ => _ end = _ => destruct g as [b|] eqn:Eb; [|discriminate] end.
+          inversion H. pose proof (IH b eq_refl) as Eb'. simpl in Eb' |- *. rewrite (Hx _ eq_refl). simpl in Eb' |- *.
+          rewrite Eb'. reflexivity.
+      - (* Mul *) cbn [pden]. revert pa H. induction IHl as [|x r Hx Hr IH]; intros pa H; [discriminate|].
+        destruct r as [|y r'].
+        + now apply Hx.
+        + destruct (phys_sc d x) as [a|] eqn:Ea; [|discriminate].
+          match type of H with match ?g with _ => _ end = _ => destruct g as [b|] eqn:Eb; [|discriminate] end.
+          inversion H. pose proof (IH b eq_refl) as Eb'. simpl in Eb' |- *. rewrite (Hx _ eq_refl). simpl in Eb' |- *.
+          rewrite Eb'. reflexivity.
+      - (* Pow *) destruct (phys_sc d b) as [tb|] eqn:Eb; [|discriminate].
+        destruct (phys_sc d x) as [tx|] eqn:Ex; [|discriminate]. inversion H.
+        cbn [pden]. rewrite (IHb _ eq_refl), (IHx _ eq_refl). now rewrite ev_tpow.
+      - (* Fn *) destruct (phys_sc d a) as [ta|] eqn:Ea; [|discriminate]. inversion H.
+        cbn [pden]. rewrite (IHa _ eq_refl). reflexivity.
+    Qed.
+
+    Lemma phys_grad_sound a pa l :
+      phys_sc d a = Some pa -> dfd S pa ->
+      sequence (map (fun i => tD false i pa) (seq0 d)) = Some l ->
+      pden (LGrad a) = Some (tev (Vec (map (csubst d m) l))).
+    Proof.
+      intros Hp Hd' Hl. cbn [pden]. rewrite (phys_sc_sound _ _ Hp). simpl. f_equal. f_equal.
+      rewrite map_map. revert Hl. dimcase; simpl; intros Hl;
+        repeat match type of Hl with
+               | context [tD false ?k pa] =>
+                   let E := fresh "E" in
+                   destruct (tD false k pa) as [?ds|] eqn:E; simpl in Hl; [|discriminate];
+                   pose proof (ev_tD S false k pa _ E Hd')
+               end;
+        inversion Hl; simpl; pose proof csubst_ev as CE; rewrite Ed in CE; rewrite !CE; congruence.
+    Qed.
+
+    Lemma phys_laplace_sound a pa l :
+      phys_sc d a = Some pa -> dfd S pa ->
+      sequence (map (fun i => dd2 false i i pa) (seq0 d)) = Some l ->
+      pden (LLaplace a) = Some (tev (Sc (csubst d m (Classical.tsum l)))).
+    Proof.
+      intros Hp Hd' Hl. cbn [pden]. rewrite (phys_sc_sound _ _ Hp). simpl. f_equal. f_equal.
+      rewrite csubst_ev, ev_tsum. unfold sumn. f_equal. revert Hl. unfold dd2.
+      dimcase; simpl; intros Hl;
+        repeat match type of Hl with
+               | context [tD false ?k ?x] =>
+                   let E := fresh "E" in
+                   let Hx := fresh "Hx" in
+                   assert (Hx : dfd S x) by assumption;
+                   destruct (tD false k x) as [?ds|] eqn:E; simpl in Hl; [|discriminate];
+                   pose proof (ev_tD S false k x _ E Hx); pose proof (dfd_tD S false k x _ E Hx); clear Hx
+               end;
+        inversion Hl; subst; simpl;
+        repeat match goal with HH : ev S _ = _ |- _ => rewrite HH; clear HH end; reflexivity.
+    Qed.
+
     (* ---------------------------------------------------------------- the arms dx/dy/dz and grad *)
     Lemma LD_sound i a t :
       (forall ta, logical d m a = Some ta -> pden a = Some (tev ta)) -> ldf1 a ->
@@ -702,7 +786,7 @@ Section Logical.
     Proof.
       intros IH Hdf H. cbn [logical] in H. destruct (negb _ && _); [discriminate|].
       destruct (logical d m a) as [[s|?|?]|] eqn:Ea; try discriminate.
-      specialize (IH _ eq_refl). pose proof (Hdf _ Ea) as Hs. simpl in Hs.
+      specialize (IH _ eq_refl). pose proof (proj1 Hdf _ Ea) as Hs. simpl in Hs.
       destruct (lgrad d (Sc s)) as [[?|g|?]|] eqn:Eg; try discriminate.
       destruct (lgrad_sc_sound _ _ Eg Hs) as (gl & Eq & Hev & _). inversion Eq; subst gl.
       destruct (nth_error _ i) as [r|] eqn:En; [|discriminate]. inversion H; subst t.
@@ -715,9 +799,12 @@ Section Logical.
       (forall ta, logical d m a = Some ta -> pden a = Some (tev ta)) -> ldf1 a ->
       logical d m (LGrad a) = Some t -> pden (LGrad a) = Some (tev t).
     Proof.
-      intros IH Hdf H. cbn [logical] in H. destruct (negb _ && _); [discriminate|].
+      intros IH Hdf H. cbn [logical] in H. destruct (negb _ && _).
+      { destruct (phys_sc d a) as [pa|] eqn:Ep; [|discriminate].
+        match type of H with option_map _ ?g = _ => destruct g as [l|] eqn:El; [|discriminate] end.
+        inversion H. eapply phys_grad_sound; eauto. now apply (proj2 Hdf). }
       destruct (logical d m a) as [ta|] eqn:Ea; try discriminate.
-      specialize (IH _ eq_refl). pose proof (Hdf _ Ea) as Hs.
+      specialize (IH _ eq_refl). pose proof (proj1 Hdf _ Ea) as Hs.
       destruct (lgrad d ta) as [g|] eqn:Eg; try discriminate.
       cbn [pden]. rewrite IH. destruct ta as [s|l|A].
       - simpl in Hs. destruct (lgrad_sc_sound _ _ Eg Hs) as (gl & Eq & Hev & _). subst g.
@@ -816,9 +903,12 @@ Section Logical.
       (forall ta, logical d m a = Some ta -> pden a = Some (tev ta)) -> ldf1 a ->
       logical d m (LLaplace a) = Some t -> pden (LLaplace a) = Some (tev t).
     Proof.
-      intros IH Hdf H. cbn [logical] in H. destruct (negb _ && _); [discriminate|].
+      intros IH Hdf H. cbn [logical] in H. destruct (negb _ && _).
+      { destruct (phys_sc d a) as [pa|] eqn:Ep; [|discriminate].
+        match type of H with option_map _ ?g = _ => destruct g as [l|] eqn:El; [|discriminate] end.
+        inversion H. eapply phys_laplace_sound; eauto. now apply (proj2 Hdf). }
       destruct (logical d m a) as [[s|?|?]|] eqn:Ea; try discriminate.
-      specialize (IH _ eq_refl). pose proof (Hdf _ Ea) as Hs. simpl in Hs.
+      specialize (IH _ eq_refl). pose proof (proj1 Hdf _ Ea) as Hs. simpl in Hs.
       destruct (lgrad d (Sc s)) as [g|] eqn:Eg; try discriminate.
       destruct (lgrad_sc_sound _ _ Eg Hs) as (gl & Eq & Hev & Hgd). subst g.
       destruct (cov d m (Vec gl)) as [v|] eqn:Ev; try discriminate.
@@ -843,14 +933,6 @@ Section Logical.
     Qed.
 
     (* ---------------------------------------------------------------- arithmetic arms *)
-    Lemma ev_tpow tb tx : evs (tpow tb tx) = P S (evs tb) (evs tx).
-    Proof.
-      destruct tx; try reflexivity. destruct z as [|p|p]; simpl.
-      - symmetry. apply (P_zero S).
-      - symmetry. apply (P_pos S).
-      - symmetry. apply (P_neg S).
-    Qed.
-
     Lemma add_go_sound l :
       Forall (fun x => forall t, logical d m x = Some t -> pden x = Some (tev t)) l ->
       forall t,
